@@ -40,6 +40,10 @@ def run(ctx):
     r2_arithmetic(ctx)
     r3_index(ctx)
     r4_iteration(ctx)
+    # every range is exported from the same document: an export leaves nothing behind (no cached rows, no state) for the next
+    from . import shared
+    shared.effect_free(ctx, 'R5', [f'{N.PUBLIC}.dumps'],
+                       'an export that keeps rows or state changes what the export of another (or the same) range returns')
 
 
 def _vals(a, b, L=L0, S=S0):
